@@ -553,7 +553,7 @@ pub fn extract_to_dir<RS: Read + Seek + HasLength>(
             if leads_outside {
                 continue; // never report (or extract) members that would end up outside of target_dir
             }
-            if !target_file.exists() {
+            if !target_file.is_file() {
                 files_filter.push(file); // need the unmapped name here
             } else {
                 extracted.push(new_file_name.into());
